@@ -93,6 +93,7 @@ func (e *Env) Finish() {
 		r.Probes = map[string]int{}
 	}
 	r.Probes["lock_waits"] += e.S.LockWaits
+	r.Probes["unlock_yields"] += e.S.UnlockYields
 	r.Probes["rwmutex_reader_behind_pending_writer_or_writer"] += e.S.WriterPendR
 	r.Probes["select_multi_case"] += e.S.SelMulti
 	r.Probes["time_steps"] += e.S.TimeSteps
